@@ -86,7 +86,7 @@ PROPS["C13"] = dict(
               "Goflow.C13.number_decimal", "Goflow.C13.valOK_array", "Goflow.C13.members_ok", "Goflow.C13.object_ok",
               "Goflow.C13.render_scalar", "Goflow.C13.item_shape", "Goflow.C13.formatJSON_valid",
               "Goflow.C13.shapeOK_default", "Goflow.C13.default_valid", "Goflow.C13.mapUnknown_inv", "Goflow.C13.valueOf_scalars",
-              "Goflow.C13.formatJSON_valid'"],
+              "Goflow.C13.formatJSON_valid_sharp"],
     generators=[dict(name="C13", quick=40, thorough=1500)],
     harness=["impl"],
 )
